@@ -101,11 +101,28 @@ def _history_check(ca, meta):
     view = lambda res: [(o.line, o.platform, o.note, type(o).__name__) for o in res]
     try:
         objs = [cls(t, platform=plat, note="n") for t in meta["texts"]]
+        nets_before = [[str(n) for n in o.ipnets()] for o in objs]
         first = fn(objs)
     except Exception:  # noqa
         objs, first = None, None
     if first is not None:
         want = view(first)
+        # the same input OBJECTS are used again: they still denote what they denoted, and a second collapse of
+        # them (same order, reversed, each one alone with the others) gives the first result again
+        if [[str(n) for n in o.ipnets()] for o in objs] != nets_before:
+            return {"what": f"collapse() changed what its input objects denote: {meta['texts']} had networks "
+                            f"{nets_before}, now {[[str(n) for n in o.ipnets()] for o in objs]}"}
+        cov = lambda res: _covered([(int(o.ipnet.network_address), o.ipnet.prefixlen) for o in res])
+        for order, lst in (("same order", objs), ("reversed", list(reversed(objs))), ("rotated", objs[1:] + objs[:1])):
+            rep = fn(lst)
+            # the same list again gives the same result; another order may merge differently (the result is not
+            # promised to be minimal) but covers the same addresses with no more elements than the input
+            if (view(rep) != want) if order == "same order" else (cov(rep) != cov(first) or len(rep) > len(objs)):
+                return {"what": f"collapse() of the same input objects again ({order}) gives "
+                                f"{[o.line for o in rep]}, the first call gave {[o.line for o in first]} "
+                                f"(inputs {meta['texts']})"}
+        if [[str(n) for n in o.ipnets()] for o in objs] != nets_before:
+            return {"what": f"repeated collapse() changed what its input objects denote: {meta['texts']}"}
         before_inputs = view(objs)
         for o in first:                      # the caller edits what it got
             o.note = "edited"
